@@ -1,7 +1,11 @@
 /-
 C50 — executable model of src/xbt/dynar.cpp + the inline cursor of include/xbt/dynar.h, with the implementation's
-bookkeeping (`size` = allocated cells, `used`, expansion policy, `memmove` index arithmetic, the `int` casts of the
-index checks), and the abstract specification (a `List`).  Core-only.
+bookkeeping (`size` = allocated cells, `used`, expansion policy, `memmove` index arithmetic, the `int` conversions of
+the `int idx` entry points), and the abstract specification (a `List`).  Core-only.
+
+The model follows the code after the two fixes of props/C50/fix_series (bound checks on the `unsigned long` index;
+`_check_sloppy_inbound_idx` in `xbt_dynar_insert_at_ptr`).  The code before these fixes is kept at the end of this file
+(`inboundOld`, `insertAtOld`, `getOld`) for the regression theorems of Props.lean.
 
 Memory is a map cell-index → content; `none` = never written (what `realloc` returns is indeterminate).  An access
 at an index ≥ `size` is outside the allocation: result `ub` (heap overflow; AddressSanitizer reports it, a plain
@@ -47,7 +51,8 @@ inductive Res where
   | ub                                  -- access outside the allocation / read of indeterminate memory
   deriving Repr, DecidableEq
 
-/-- C conversion `unsigned long → int` (what passing `idx` to `_check_inbound_idx(…, int idx)` does) -/
+/-- C conversion `unsigned long → int` (what passing `dynar->used` / `dynar->used - 1` to the `int idx` parameter of
+`xbt_dynar_insert_at_ptr` / `xbt_dynar_remove_at` does) -/
 def toI32 (n : Nat) : Int :=
   let m := n % 4294967296
   if m < 2147483648 then (m : Int) else (m : Int) - 4294967296
@@ -66,12 +71,13 @@ def memmove (mem : Nat → Option Elem) (dst src n : Nat) : Nat → Option Elem 
 def store (mem : Nat → Option Elem) (i : Nat) (v : Option Elem) : Nat → Option Elem :=
   fun j => if j = i then v else mem j
 
-/-- `_check_inbound_idx(dynar, idx)` with `int idx`: `idx >= 0 && idx < static_cast<int>(dynar->used)` -/
-def inbound (d : Dynar) (idx : Int) : Bool := decide (0 ≤ idx) && decide (idx < toI32 d.used)
+/-- `_check_inbound_idx(dynar, idx)` with `unsigned long idx`: `idx < dynar->used` -/
+def inbound (d : Dynar) (idx : Nat) : Bool := decide (idx < d.used)
 
 /-- `xbt_dynar_insert_at_ptr(dynar, idx)` then the store through the returned pointer -/
 def insertAt (d : Dynar) (idx : Int) (x : Elem) : Res × Dynar :=
   if idx < 0 then (.abort, d)                                   -- _sanity_check_idx
+  else if idx.toNat > d.used then (.abort, d)                   -- _check_sloppy_inbound_idx: idx <= dynar->used
   else
     let i := idx.toNat
     let oldUsed := d.used
@@ -79,13 +85,14 @@ def insertAt (d : Dynar) (idx : Int) (x : Elem) : Res × Dynar :=
     let d1 := expand d newUsed
     -- if (long nb_shift = old_used - idx; nb_shift > 0) memmove(elm(idx+1), elm(idx), nb_shift)
     let mem1 := if i < oldUsed then memmove d1.mem (i + 1) i (oldUsed - i) else d1.mem
-    -- dynar->used = new_used; res = elm(idx); *res = x      (no check that idx <= old_used!)
+    -- dynar->used = new_used; res = elm(idx); *res = x
     if i < d1.size then (.unit, { d1 with used := newUsed, mem := store mem1 i (some x) })
     else (.ub, { d1 with used := newUsed, mem := mem1 })
 
 /-- `xbt_dynar_remove_at(dynar, idx, &dst)` -/
 def removeAt (d : Dynar) (idx : Int) : Res × Dynar :=
-  if !inbound d idx then (.abort, d)
+  if idx < 0 then (.abort, d)                                   -- _sanity_check_idx
+  else if !inbound d idx.toNat then (.abort, d)                 -- _check_inbound_idx (idx converted to unsigned long)
   else
     let i := idx.toNat
     match d.mem i with
@@ -116,7 +123,7 @@ def intLe (a b : Elem) : Bool := decide (a ≤ b)
 
 /-- one public call.  Returns the observable result and the new state. -/
 def cstep (d : Dynar) : Op → Res × Dynar
-  | .push x => insertAt d (d.used : Int) x                       -- insert_at_ptr(dynar, dynar->used)
+  | .push x => insertAt d (toI32 d.used) x                       -- insert_at_ptr(dynar, dynar->used) (`int idx`)
   | .unshift x => insertAt d 0 x
   | .insertAt idx x => insertAt d idx x
   | .pop => removeAt d (toI32 (d.used + 18446744073709551615))   -- remove_at(dynar, used - 1 (unsigned long), dst)
@@ -128,8 +135,8 @@ def cstep (d : Dynar) : Op → Res × Dynar
       | none => (.ub, { d with used := d.used - 1 })
       | some v => (.val v, { d with used := d.used - 1 })
   | .get idx =>
-    if !inbound d (toI32 idx) then (.abort, d)                   -- the check sees (int)idx …
-    else if idx ≥ d.size then (.ub, d)                           -- … the access uses the unsigned long idx
+    if !inbound d idx then (.abort, d)                           -- _check_inbound_idx on the unsigned long idx
+    else if idx ≥ d.size then (.ub, d)
     else match d.mem idx with
       | none => (.ub, d)
       | some v => (.val v, d)
@@ -197,13 +204,12 @@ def sstep (l : List Elem) : Op → Res × List Elem
 def Inv (d : Dynar) : Prop :=
   d.used ≤ d.size ∧ d.used < 2147483648 ∧ ∀ i, i < d.used → (d.mem i).isSome = true
 
-/-- the calls within which the implementation is claimed to refine the list (see Props.lean for the two excluded
-classes, which are counterexamples) -/
+/-- the only restriction of the refinement theorem: the dynar stays shorter than 2^31 elements (positions are `int` in
+`insert_at`/`remove_at`, and `push`/`pop` go through them).  No restriction on the indices that are passed. -/
 def opOk (d : Dynar) : Op → Prop
   | .push _ => d.used + 1 < 2147483648
   | .unshift _ => d.used + 1 < 2147483648
-  | .insertAt idx _ => d.used + 1 < 2147483648 ∧ idx ≤ d.used
-  | .get idx => idx < 2147483648
+  | .insertAt _ _ => d.used + 1 < 2147483648
   | .set idx _ => idx + 1 < 2147483648
   | _ => True
 
@@ -220,5 +226,30 @@ def runS (l : List Elem) : List Op → List Res × List Elem
     let (r, l1) := sstep l op
     let (rs, l2) := runS l1 ops
     (r :: rs, l2)
+
+/-! ## the code before the fixes (regression witnesses only; nothing else uses these) -/
+
+/-- old `_check_inbound_idx(dynar, int idx)`: `idx >= 0 && idx < static_cast<int>(dynar->used)` -/
+def inboundOld (d : Dynar) (idx : Int) : Bool := decide (0 ≤ idx) && decide (idx < toI32 d.used)
+
+/-- old `xbt_dynar_insert_at_ptr`: `_sanity_check_idx` only, no check that idx <= old_used -/
+def insertAtOld (d : Dynar) (idx : Int) (x : Elem) : Res × Dynar :=
+  if idx < 0 then (.abort, d)
+  else
+    let i := idx.toNat
+    let oldUsed := d.used
+    let newUsed := oldUsed + 1
+    let d1 := expand d newUsed
+    let mem1 := if i < oldUsed then memmove d1.mem (i + 1) i (oldUsed - i) else d1.mem
+    if i < d1.size then (.unit, { d1 with used := newUsed, mem := store mem1 i (some x) })
+    else (.ub, { d1 with used := newUsed, mem := mem1 })
+
+/-- old `xbt_dynar_get_cpy(dynar, unsigned long idx, dst)`: the check saw `(int)idx`, the access used `idx` -/
+def getOld (d : Dynar) (idx : Nat) : Res × Dynar :=
+  if !inboundOld d (toI32 idx) then (.abort, d)
+  else if idx ≥ d.size then (.ub, d)
+  else match d.mem idx with
+    | none => (.ub, d)
+    | some v => (.val v, d)
 
 end SgVerif.C50
